@@ -103,12 +103,24 @@ func chanTrace(e *env) error {
 			// a malformed line in one more record; further records after it must never be seen
 			bad := []string{"  broken", "  pear: 1,5", "\tname: x1", "- \"q\":"}[e.rng.Intn(4)]
 			sb.WriteString("2021/02/01:\n  x: 1\n" + bad + "\n2021/02/02:\n  y: 2\n")
+			if e.rng.Intn(3) == 0 {
+				// a long tail after the malformed line (several reads of bufio's buffer that the parser never asks for)
+				for i := 0; i < 400+e.rng.Intn(800); i++ {
+					fmt.Fprintf(&sb, "2021/03/%02d:\n  tail food %d: %d\n", 1+i%28, i, i)
+				}
+			}
 			items = append(items, "err")
 		case "io":
 			sb.WriteString("2021/03/01:\n  pending: 1\n")
 			failAt = sb.Len()
 		}
 		data := sb.String()
+		if e.rng.Intn(12) == 0 {
+			data = "\xef\xbb\xbf" + data // a byte order mark: whatever the parser makes of it, both APIs must agree
+			if failAt >= 0 {
+				failAt += 3
+			}
+		}
 		// a parser configuration with another comment character, with comment lines in that character
 		pcfg := parser.NewDefaultConfig()
 		if e.rng.Intn(3) == 0 {
